@@ -16,7 +16,7 @@ RULE = (
     "up to 60 ops over max {0,1,3,10,50,200}, bar width 1..40, min interval {0,0.1,0.5}, default formats at every "
     "verbosity and 3 custom formats (one with a message placeholder, one two-line), messages of varying length "
     "with and without style tags, clock advances {0,10ms,50ms,200ms,2s}; all under a virtual clock, every stream "
-    "write recorded with its virtual time and replayed on a terminal emulator. Non-trivial: a throttled advance, a "
+    "write recorded with its virtual time and replayed on a terminal emulator. random cases also configure the bar / empty / progress characters; after every operation the bar's own report of progress, maximum and fraction is compared with the model. Non-trivial: a throttled advance, a "
     "frame shorter than its predecessor, or an overshoot / negative set_progress. Enumerated cases are distinct by "
     "construction, random ones by hash."
 )
@@ -103,6 +103,10 @@ class Run(object):
         self.out = out
         self.pb = pbmod.ProgressBar(out, cfg["max"], cfg["min"])
         self.pb.set_bar_width(cfg["width"])
+        if cfg.get("chars"):
+            self.pb.set_bar_character(cfg["chars"][0])
+            self.pb.set_empty_bar_character(cfg["chars"][1])
+            self.pb.set_progress_character(cfg["chars"][2])
         if cfg.get("format"):
             self.pb.set_format(FORMATS[cfg["format"]])
             if "message" in FORMATS[cfg["format"]]:
@@ -186,6 +190,15 @@ def run_case(ctx, part, case, by_construction=False):
             return
         if throttled_kind and run.step == run.max:
             must_draw = True
+        # what the bar reports about itself agrees with what it draws
+        # (the fraction only for bars created with a known maximum: a bar without one keeps its fraction until it
+        # draws again, which finish() on a plain output does not do)
+        known = cfg["max"] > 0
+        got_state = [pb.get_progress(), pb.get_max_steps(), round(pb.get_progress_percent(), 9) if known else None]
+        want_state = [run.step, run.max, (round(run.step / run.max, 9) if run.max else 0.0) if known else None]
+        if got_state != want_state:
+            fail("C16.step", {"progress, max, fraction": want_state}, {"op": i, "reported": got_state}, sig="getters")
+            return
         writes = run.stream.log[mark:]
         data = "".join(w[2] for w in writes)
         if quiet:
@@ -218,6 +231,10 @@ def run_case(ctx, part, case, by_construction=False):
             g = m.groupdict()
             if g.get("bar") is not None and len(g["bar"]) != cfg["width"]:
                 fail("C16.bar-width", cfg["width"], {"op": i, "frame": text}, sig="bar-width")
+                return
+            if g.get("bar") is not None and cfg.get("chars") and not set(g["bar"]) <= set("".join(cfg["chars"])):
+                fail("C16.frame", "bar drawn with the configured characters %r" % (cfg["chars"],),
+                     {"op": i, "frame": text}, sig="bar-characters")
                 return
             if g.get("current") is not None:
                 cur = int(g["current"])
@@ -362,6 +379,7 @@ def random_case():
         "format": st.sampled_from([None, None, "F1", "F2"]),
         "quiet": st.integers(0, 9).map(lambda x: x == 0),
         "verbosity": st.sampled_from([0, 0, 1, 2, 4]),
+        "chars": st.sampled_from([None, None, ["#", ".", ">"], ["#", "-", ""]]),
     })
     op = st.one_of(
         st.just(["start"]), st.tuples(st.just("start"), st.sampled_from([1, 5, 20])).map(list),
